@@ -363,13 +363,20 @@ def run_unit(spec, unit, scratch, tier="quick", trace=False):
     return res
 
 
+def _name_match(uname, pat):
+    """exact unit name, or a prefix when the pattern ends with '*' (used by vp/seedtest.py --units)"""
+    if pat.endswith("*"):
+        return uname.startswith(pat[:-1])
+    return uname == pat
+
+
 def units_for(mods, prop=None, module=None, name=None, tier="quick"):
     out = []
     for m, spec in mods.items():
         if module and m != module:
             continue
         for u in spec["units"]:
-            if name and u["name"] != name:
+            if name and not _name_match(u["name"], name):
                 continue
             if prop and prop not in u.get("props", []):
                 continue
@@ -381,8 +388,6 @@ def units_for(mods, prop=None, module=None, name=None, tier="quick"):
                 t["name"] = u["name"] + "@asserts"
                 t["asserts_pass"] = True
                 t.pop("replay", None)
-                if name and u["name"] != name:
-                    continue
                 out.append((spec, t))
     return out
 
